@@ -77,15 +77,11 @@ Proof. apply split_on_nosep. Qed.
 Lemma split_join segs : segs <> [] -> Forall nodot segs -> split_dots (join_dots segs) = segs.
 Proof. apply split_join_on. Qed.
 
-(* segment [seg] names field [fd] of message [md]: by its field name, except that a
-   group-kind field is named by its message name (and only when the field name is
-   the lower-cased message name or the message name itself) *)
+(* the code's rule: segment [seg] selects field [fd] of message [md] *)
 Definition names (sc : schema) (md : nat) (seg : list byte) (fd : field) : Prop :=
   exists m, nth_error sc md = Some m /\
-  ((by_name (m_fields m) seg = Some fd /\
-    (forall r, f_kind fd = KGroup r -> msg_name_is sc r seg = true)) \/
-   (by_name (m_fields m) seg = None /\ by_name (m_fields m) (lower seg) = Some fd /\
-    exists r, f_kind fd = KGroup r /\ msg_name_is sc r seg = true)).
+  ((by_name (m_fields m) seg = Some fd /\ f_text fd = seg) \/
+   (by_name (m_fields m) seg = None /\ by_name (m_fields m) (lower seg) = Some fd /\ f_text fd = seg)).
 
 Lemma lookup_seg_names sc md seg fd : lookup_seg sc md seg = Some fd <-> names sc md seg fd.
 Proof.
@@ -94,37 +90,40 @@ Proof.
   split.
   - intros H. exists m. split; [reflexivity|].
     destruct (by_name (m_fields m) seg) as [f|] eqn:B.
-    + left. destruct (f_kind f) eqn:K.
-      * inversion H; subst. split; [reflexivity|]. intros r Hr. congruence.
-      * inversion H; subst. split; [reflexivity|]. intros r Hr. congruence.
-      * destruct (msg_name_is sc ref seg) eqn:M; [|discriminate]. inversion H; subst.
-        split; [reflexivity|]. intros r Hr. congruence.
+    + left. destruct (bytes_eqb (f_text f) seg) eqn:T; [|discriminate]. inversion H; subst.
+      split; [reflexivity | now apply bytes_eqb_true].
     + right. split; [reflexivity|].
       destruct (by_name (m_fields m) (lower seg)) as [g|]; [|discriminate].
-      destruct (f_kind g) eqn:K; try discriminate.
-      destruct (msg_name_is sc ref seg) eqn:M; [|discriminate]. inversion H; subst. eauto.
+      destruct (bytes_eqb (f_text g) seg) eqn:T; [|discriminate]. inversion H; subst.
+      split; [reflexivity | now apply bytes_eqb_true].
   - intros [m' [E H]]. inversion E; subst m'. clear E.
-    destruct H as [[B G]|[B [L [r [K M]]]]].
-    + rewrite B. destruct (f_kind fd) eqn:K; try reflexivity. now rewrite (G _ eq_refl).
-    + rewrite B, L, K, M. reflexivity.
+    destruct H as [[B T]|[B [L T]]].
+    + rewrite B. apply bytes_eqb_true in T. now rewrite T.
+    + rewrite B, L. apply bytes_eqb_true in T. now rewrite T.
 Qed.
 
+(* the property's rule: [seg] is the text-format name of a field of the message *)
+Definition names_text (sc : schema) (md : nat) (seg : list byte) (fd : field) : Prop :=
+  exists m, nth_error sc md = Some m /\ In fd (m_fields m) /\ f_text fd = seg.
+
 (* the segments name a chain of fields; every non-final one is a singular message field *)
-Inductive reach (sc : schema) : nat -> list (list byte) -> Prop :=
-| reach_last md seg fd : names sc md seg fd -> reach sc md [seg]
+Inductive reachN (N : nat -> list byte -> field -> Prop) : nat -> list (list byte) -> Prop :=
+| reach_last md seg fd : N md seg fd -> reachN N md [seg]
 | reach_step md seg fd md' rest :
-    names sc md seg fd -> f_rep fd = false -> kind_msg (f_kind fd) = Some md' ->
-    rest <> [] -> reach sc md' rest -> reach sc md (seg :: rest).
+    N md seg fd -> f_rep fd = false -> kind_msg (f_kind fd) = Some md' ->
+    rest <> [] -> reachN N md' rest -> reachN N md (seg :: rest).
+Definition reach (sc : schema) := reachN (names sc).
+Definition reach_text (sc : schema) := reachN (names_text sc).
 
 Lemma walk_reach sc segs : segs <> [] -> forall md, walk sc (Some md) segs = true <-> reach sc md segs.
 Proof.
   induction segs as [|seg rest IH]; [congruence|]. intros _ md. cbn [walk].
   split.
   - destruct (lookup_seg sc md seg) as [fd|] eqn:L; [|discriminate].
-    apply lookup_seg_names in L. destruct rest as [|s2 r2]; [intros _; eapply reach_last; eauto|].
+    apply lookup_seg_names in L. destruct rest as [|s2 r2]; [intros _; eapply (reach_last (names sc)); eauto|].
     destruct (f_rep fd) eqn:R; [cbn [walk]; discriminate|].
     destruct (kind_msg (f_kind fd)) as [md'|] eqn:K; [|cbn [walk]; discriminate].
-    intros H. eapply reach_step; eauto; [discriminate|]. apply IH; [discriminate | exact H].
+    intros H. eapply (reach_step (names sc)); eauto; [discriminate|]. apply IH; [discriminate | exact H].
   - intros H. inversion H; subst.
     + apply lookup_seg_names in H2. rewrite H2. reflexivity.
     + apply lookup_seg_names in H2. rewrite H2, H3, H4. apply IH; assumption.
@@ -138,22 +137,6 @@ Proof.
   - intros H. exists (split_dots p). repeat split; auto using split_nonnil, split_nodot.
     now rewrite join_split.
   - intros [segs [H1 [H2 [-> H4]]]]. now rewrite split_join.
-Qed.
-
-(* when no field is of group kind a segment simply is a field name *)
-Lemma names_plain sc md seg fd :
-  (forall m f r, In m sc -> In f (m_fields m) -> f_kind f <> KGroup r) ->
-  (names sc md seg fd <-> exists m, nth_error sc md = Some m /\ by_name (m_fields m) seg = Some fd).
-Proof.
-  intros NG. unfold names.
-  assert (forall fs n f, by_name fs n = Some f -> In f fs) as BIn.
-  { induction fs as [|g t IH]; cbn [by_name]; [discriminate|]. intros n f.
-    destruct (bytes_eqb (f_name g) n); [intros H; inversion H; now left | intros H; right; eauto]. }
-  split.
-  - intros [m [E [[B _]|[_ [L [r [K _]]]]]]]; [eauto|].
-    exfalso. eapply NG; eauto using nth_error_In.
-  - intros [m [E B]]. exists m. split; [exact E|]. left. split; [exact B|].
-    intros r K. exfalso. eapply NG; eauto using nth_error_In.
 Qed.
 
 Lemma num_valid_le sc root paths : (num_valid_paths sc root paths <= length paths)%nat.
@@ -205,35 +188,14 @@ Proof.
     now rewrite Nat.sub_diag, H.
 Qed.
 
-(* ------------------------------------------------------------------ known finding F16 *)
-(* The property reads "paths that name a field"; in protobuf-go a field is named, in text
-   form, by fd.TextName(): the field name, except for group-like fields (GroupKind whose name
-   is the lower-cased message name), which are named by their message name.  (isGroupLike
-   also demands that the group message is declared in the same file and scope; that is
-   outside this schema model.)  numValidPaths instead treats EVERY GroupKind field like a
-   proto2 group, so an editions DELIMITED field that is not group-like cannot be named. *)
-Definition msg_name_of (sc : schema) (r : nat) : list byte :=
-  match nth_error sc r with Some m => m_name m | None => [] end.
-Definition group_like (sc : schema) (f : field) : bool :=
-  match f_kind f with KGroup r => bytes_eqb (lower (msg_name_of sc r)) (f_name f) | _ => false end.
-Definition text_name (sc : schema) (f : field) : list byte :=
-  match f_kind f with
-  | KGroup r => if group_like sc f then msg_name_of sc r else f_name f
-  | _ => f_name f
-  end.
-Definition names_text (sc : schema) (md : nat) (seg : list byte) (fd : field) : Prop :=
-  exists m, nth_error sc md = Some m /\ In fd (m_fields m) /\ text_name sc fd = seg.
-
-Theorem valid_paths_text_name_refuted :
-  exists sc root p fd, names_text sc root p fd /\ nodot p /\ path_valid sc root p = false.
-Proof.
-  set (fx := {| f_name := ["x"%byte]; f_kind := KGroup 1; f_rep := false |}).
-  exists [ {| m_name := ["M"%byte]; m_fields := [fx] |}; {| m_name := ["G"%byte]; m_fields := [] |} ], 0%nat, ["x"%byte], fx.
-  split; [|split].
-  - eexists. split; [reflexivity|]. split; [now left | reflexivity].
-  - intros [H|[]]. discriminate H.
-  - reflexivity.
-Qed.
+(* ------------------------------------------------------------------ text-format names (F16, repaired) *)
+(* Descriptor well-formedness as far as path lookup is concerned: field names and text names
+   are unique within a message, and TextName is the field name or (group-like fields) a
+   message name whose lower-casing is the field name. *)
+Definition schema_wf (sc : schema) : Prop :=
+  forall m, In m sc ->
+    NoDup (map f_name (m_fields m)) /\ NoDup (map f_text (m_fields m)) /\
+    forall f, In f (m_fields m) -> f_text f = f_name f \/ lower (f_text f) = f_name f.
 
 Lemma by_name_some fs n f : by_name fs n = Some f -> In f fs /\ f_name f = n.
 Proof.
@@ -241,13 +203,6 @@ Proof.
   destruct (bytes_eqb (f_name g) n) eqn:E.
   - intros H; inversion H; subst. split; [now left | now apply bytes_eqb_true].
   - intros H. destruct (IH H). split; [now right | assumption].
-Qed.
-Lemma by_name_none fs n f : by_name fs n = None -> In f fs -> f_name f <> n.
-Proof.
-  induction fs as [|g t IH]; cbn [by_name]; [intros _ []|].
-  destruct (bytes_eqb (f_name g) n) eqn:E; [discriminate|].
-  intros H [->|Hin]; [|now apply IH].
-  intros C. apply bytes_eqb_true in C. congruence.
 Qed.
 Lemma by_name_unique fs f : NoDup (map f_name fs) -> In f fs -> by_name fs (f_name f) = Some f.
 Proof.
@@ -272,55 +227,48 @@ Proof.
   - exfalso. apply H1. rewrite <- E. now apply in_map.
 Qed.
 
-(* outside the F16 class (every GroupKind field is group-like) the code's rule is exactly
-   "the segment is the text-format name of a field of the message" *)
-Theorem names_text_except_F16 sc md seg fd :
-  (forall m f, In m sc -> In f (m_fields m) ->
-     match f_kind f with KGroup r => group_like sc f = true /\ r < length sc | _ => True end)%nat ->
-  (forall m, In m sc -> NoDup (map f_name (m_fields m)) /\ NoDup (map (text_name sc) (m_fields m))) ->
-  (names sc md seg fd <-> names_text sc md seg fd).
+(* the code's lookup (ByName, then ByName(ToLower), each checked against TextName) finds
+   exactly the field whose text-format name is the segment *)
+Theorem names_text_exact sc md seg fd : schema_wf sc -> (names sc md seg fd <-> names_text sc md seg fd).
 Proof.
-  intros GL ND. unfold names, names_text. split.
+  intros WF. unfold names, names_text. split.
   - intros [m [Em H]]. exists m. split; [exact Em|].
-    pose proof (nth_error_In _ _ Em) as Hm.
-    destruct H as [[B G]|[Bn [L [r [K M]]]]].
-    + destruct (by_name_some _ _ _ B) as [Hin Hn]. split; [exact Hin|].
-      unfold text_name. destruct (f_kind fd) eqn:K; auto.
-      specialize (GL m fd Hm Hin). rewrite K in GL. destruct GL as [GLf _]. rewrite GLf.
-      specialize (G _ eq_refl). unfold msg_name_is in G. unfold msg_name_of.
-      destruct (nth_error sc ref); [now apply bytes_eqb_true | discriminate].
-    + destruct (by_name_some _ _ _ L) as [Hin Hn]. split; [exact Hin|].
-      unfold text_name. rewrite K.
-      specialize (GL m fd Hm Hin). rewrite K in GL. destruct GL as [GLf _]. rewrite GLf.
-      unfold msg_name_is in M. unfold msg_name_of.
-      destruct (nth_error sc r); [now apply bytes_eqb_true | discriminate].
+    destruct H as [[B T]|[_ [L T]]].
+    + destruct (by_name_some _ _ _ B). auto.
+    + destruct (by_name_some _ _ _ L). auto.
   - intros [m [Em [Hin T]]]. exists m. split; [exact Em|].
-    pose proof (nth_error_In _ _ Em) as Hm. destruct (ND m Hm) as [ND1 ND2].
-    pose proof (GL m fd Hm Hin) as GLfd.
-    unfold text_name in T. destruct (f_kind fd) eqn:K.
-    + left. subst seg. split; [now apply by_name_unique|]. intros r C. discriminate C.
-    + left. subst seg. split; [now apply by_name_unique|]. intros r C. discriminate C.
-    + destruct GLfd as [GLf Hr]. rewrite GLf in T.
-      assert (msg_name_is sc ref seg = true) as MN.
-      { unfold msg_name_is. unfold msg_name_of in T. destruct (nth_error sc ref) eqn:En.
-        - now apply bytes_eqb_true.
-        - apply nth_error_None in En. lia. }
-      assert (f_name fd = lower seg) as Hn.
-      { unfold group_like in GLf. rewrite K in GLf. apply bytes_eqb_true in GLf. now rewrite <- T. }
+    destruct (WF m (nth_error_In _ _ Em)) as [ND1 [ND2 TX]].
+    destruct (TX fd Hin) as [Hn|Hn].
+    + left. rewrite <- T, Hn. split; [now apply by_name_unique | congruence].
+    + rewrite T in Hn.
       destruct (by_name (m_fields m) seg) as [g|] eqn:B.
       * left. destruct (by_name_some _ _ _ B) as [Hg Hgn].
-        assert (g = fd) as ->.
-        { pose proof (GL m g Hm Hg) as GLg. destruct (f_kind g) eqn:Kg.
-          - (* g scalar named seg = text name of fd *)
-            apply (nodup_map_inj (text_name sc) (m_fields m)); auto.
-            unfold text_name at 1. rewrite Kg, Hgn. unfold text_name. now rewrite K, GLf.
-          - apply (nodup_map_inj (text_name sc) (m_fields m)); auto.
-            unfold text_name at 1. rewrite Kg, Hgn. unfold text_name. now rewrite K, GLf.
-          - destruct GLg as [GLg _]. unfold group_like in GLg. rewrite Kg in GLg. apply bytes_eqb_true in GLg.
-            apply (nodup_map_inj f_name (m_fields m)); auto.
-            rewrite Hn, Hgn. rewrite <- Hgn, <- GLg. symmetry. apply lower_idem. }
-        split; [reflexivity|]. intros r C. try rewrite K in C. inversion C; subst. exact MN.
-      * right. split; [reflexivity|]. split.
-        -- rewrite <- Hn. now apply by_name_unique.
-        -- exists ref. auto.
+        assert (g = fd) as ->; [|auto].
+        destruct (TX g Hg) as [Tg|Tg].
+        -- apply (nodup_map_inj f_text (m_fields m)); auto. congruence.
+        -- apply (nodup_map_inj f_name (m_fields m)); auto.
+           rewrite <- Hn, Hgn. rewrite <- Hgn, <- Tg. symmetry. apply lower_idem.
+      * right. split; [reflexivity|]. split; [|exact T]. rewrite Hn. now apply by_name_unique.
+Qed.
+
+Lemma reachN_iff (N1 N2 : nat -> list byte -> field -> Prop) :
+  (forall md seg fd, N1 md seg fd <-> N2 md seg fd) -> forall md segs, reachN N1 md segs <-> reachN N2 md segs.
+Proof.
+  intros H md segs. split; induction 1.
+  - eapply reach_last. apply H; eauto.
+  - eapply reach_step; eauto. apply H; eauto.
+  - eapply reach_last. apply H; eauto.
+  - eapply reach_step; eauto. apply H; eauto.
+Qed.
+
+(* New / Append / IsValid accept exactly the paths whose segments are the text-format names of
+   a chain of fields in which every non-final field is a singular message field *)
+Theorem valid_paths_text_name_exact sc root p :
+  schema_wf sc ->
+  (path_valid sc root p = true <->
+   exists segs, segs <> [] /\ Forall nodot segs /\ p = join_dots segs /\ reach_text sc root segs).
+Proof.
+  intros WF. rewrite valid_paths_exact. unfold reach, reach_text.
+  split; intros [segs [H1 [H2 [H3 H4]]]]; exists segs; repeat split; auto;
+    eapply reachN_iff; try exact H4; intros; [symmetry|]; now apply names_text_exact.
 Qed.
